@@ -292,15 +292,22 @@ fn track_walk<'a>(node: &ast::Stmt<'a>, state: &mut AssignmentTracker<'a>) {
             state.pop();
         }
         #[cfg(feature = "multi_template")]
-        ast::Stmt::Extends(_) | ast::Stmt::Include(_) => {}
+        ast::Stmt::Extends(stmt) => tracker_visit_expr(&stmt.name, state),
+        #[cfg(feature = "multi_template")]
+        ast::Stmt::Include(stmt) => tracker_visit_expr(&stmt.name, state),
         #[cfg(feature = "multi_template")]
         ast::Stmt::Import(stmt) => {
+            // the template name is an expression like any other
+            tracker_visit_expr(&stmt.expr, state);
             track_assign(&stmt.name, state);
         }
         #[cfg(feature = "multi_template")]
-        ast::Stmt::FromImport(stmt) => stmt.names.iter().for_each(|(arg, alias)| {
-            track_assign(alias.as_ref().unwrap_or(arg), state);
-        }),
+        ast::Stmt::FromImport(stmt) => {
+            tracker_visit_expr(&stmt.expr, state);
+            stmt.names.iter().for_each(|(arg, alias)| {
+                track_assign(alias.as_ref().unwrap_or(arg), state);
+            })
+        }
         #[cfg(feature = "macros")]
         ast::Stmt::Macro(stmt) => {
             // the macro is stored under its name only after it was built; a
